@@ -91,6 +91,7 @@ fn semantics(ch: &mut Choices, case: &mut Case) -> Result<(), String> {
         repeats: false,
         max_day_offset: 10,
         single_date_max_offset: 300,
+        repeat_pct: 4,
         ..Cfg::default()
     };
     let (_, text) = gen_expr(ch, &cfg);
